@@ -133,6 +133,17 @@ def countViolations (g : Graph) (t : List MEv) : List (Nat × Nat × Nat) :=
 
 def countOk (g : Graph) (t : List MEv) : Bool := (countViolations g t).isEmpty
 
+/-- C03, creation attempts: EVERY execution interval counts, also a creation of an object that ended with a failed
+pre-step (the two-step creation is one execution whether or not the test proper was reached).  For classes without
+an object root this is `countViolations`. -/
+def attemptViolations (g : Graph) (t : List MEv) : List (Nat × Nat × Nat) :=
+  let ivs := intervals t
+  ivs.filterMap (fun j =>
+    let same := ivs.filter (fun i => i.cls == j.cls && inScope g j.cls j.w i.w)
+    if same.length > triesOf g j.cls j.w && !(same.any (fun i => overran g ivs i)) then some (j.w, j.cls, same.length) else none)
+
+def attemptOk (g : Graph) (t : List MEv) : Bool := (attemptViolations g t).isEmpty
+
 /-- a stateful class whose states were all found at the first examination within a scope is not executed there -/
 def presentNotRunViolations (g : Graph) (t : List MEv) : List (Nat × Nat) :=
   (t.zipIdx).filterMap (fun (e, i) =>
